@@ -5,6 +5,6 @@ CONSTANTS Peers = {"a", "b"}
           MaxEnv = 2
           MaxFire = 1
           MaxDialFail = 1
-          StopOrders = {"cancel-first"}
-          Devs = {"Dev_C46_RearmAfterStop"}
+          StopOrders = {"timer-first"}
+          Devs = {}
 INVARIANTS NoTimerAfterStop
